@@ -199,6 +199,9 @@ class Pool:
                     idle = [z for z in self.zygotes if z.ready and z.job is None and not queues[env_key(z.env)]]
                     if not idle:
                         break
+                    # a respawn costs ~1.5 s of CPU: only worth it for a real backlog
+                    if active(k) > 0 and len(queues[k]) / active(k) < 8:
+                        break
                     self._retire(idle[0])
                 self._spawn(envs[k])
             # 3. wait for output
